@@ -1,20 +1,30 @@
-"""C01 - resonance search.  Proof obligations: props/C01.v.  Correspondence:
-BaseART.step_fit/fit/partial_fit of the real library vs the Gallina model on
-tie-/veto-heavy grid cases, all five match-tracking modes."""
+"""C01 - resonance search.
+
+Proof obligations: coq/props/C01.v (generic search = scan of the sorted
+order, nanargmax, frame of a training step; axiom-free).
+Correspondence: BaseART.fit / partial_fit of the real library vs the Gallina
+model (theories/BaseArt.v + kernels) at exact rationals on tie-/veto-heavy
+grid cases, all five match-tracking modes, W/labels/counters/params and the
+(category, vigilance-in-force) log handed to the reset function.
+Failing-input search: the specification scan evaluated on the
+implementation's own activation / match values, sample by sample."""
+import copy
 import sys
 from fractions import Fraction
 
+import numpy as np
+
 import common as C
 import basefam as B
+import flow
 
 
-def gen_cases(rng, n_cases):
+# --------------------------------------------------------------- generation
+def gen_cases(rng, n_cases, kinds=("Fuzzy", "Fuzzy", "ART2A")):
     cases = []
     for _ in range(n_cases):
-        k = B.gen_fuzzy_kernel(rng)
-        d = rng.choice([1, 2, 2, 3])
-        n = rng.randrange(2, 15 if k["beta"] != Fraction(3, 4) else 9)
-        rows = B.grid_rows(rng, n, d)
+        kind = rng.choice(kinds)
+        k, rows = B.gen_kernel_and_rows(rng, kind)
         mode, eps = B.gen_mode(rng)
         veto = B.gen_veto(rng) if rng.random() < 0.7 else None
         nb = rng.choice([1, 1, 2, 3])
@@ -28,38 +38,172 @@ def gen_cases(rng, n_cases):
     return cases
 
 
+# --------------------------------------------------------------- oracle
+def expected_scan(T, M, rho, mode, eps, veto_of, inverted):
+    """the specification: scan the categories by (activation desc, index asc)"""
+    strict = mode in ("MT0", "MT~")
+    live = [c for c in range(len(T)) if not np.isnan(T[c])]
+    order = sorted(live, key=lambda c: (-T[c], c))
+    log = []
+    for c in order:
+        if inverted:
+            m = (rho > M[c]) if strict else (rho >= M[c])
+        else:
+            m = (M[c] > rho) if strict else (M[c] >= rho)
+        ok = veto_of(c)
+        log.append((c, rho))
+        if m and ok:
+            return c, log
+        if m and not ok:
+            if mode == "MT+":
+                rho = M[c] - eps if inverted else M[c] + eps
+            elif mode == "MT-":
+                rho = M[c] + eps if inverted else M[c] - eps
+            elif mode == "MT0":
+                rho = M[c]
+            elif mode == "MT1":
+                return None, log
+    return None, log
+
+
+def oracle_case(k, ops):
+    """present the stream one sample at a time through the public API and
+    compare every step with the specification evaluated on the
+    implementation's own kernel outputs.  Returns list of failure dicts."""
+    fails = []
+    est = B.make_est(k)
+    inverted = type(est).__name__ == "BayesianART"
+    rows = [r for o in ops for r in o["X"]]
+    mode, eps, vs = ops[0]["mode"], float(ops[0]["eps"]), ops[0].get("veto")
+    X = np.array(rows, dtype=float)
+    keys, _ = B.row_keys(X)
+
+    def replay(i, what):
+        return {"signature": "BaseART.step_fit/" + what,
+                "text": what,
+                "replay": {"estimator": {kk: str(vv) for kk, vv in k.items()}, "mode": mode, "eps": str(ops[0]["eps"]),
+                           "veto": vs, "rows": [[str(v) for v in r] for r in rows], "failing_sample": i,
+                           "how": "present rows one at a time with partial_fit; compare with scan of sorted activations"}}
+
+    for i, x in enumerate(X):
+        veto = B.Veto(est, vs["tbl"], vs["a"], vs["b"], keys) if vs else None
+        has_w = hasattr(est, "W") and len(est.W) > 0
+        Wb = [np.array(w, dtype=float).copy() for w in est.W] if hasattr(est, "W") else []
+        pb = copy.deepcopy(est.params)
+        exp_c, exp_log = None, []
+        if has_w:
+            T, M = [], []
+            key = keys[x.tobytes()]
+            vfun = (lambda c: bool(vs["tbl"][(vs["a"] * key + vs["b"] * c) % len(vs["tbl"])])) if vs else (lambda c: True)
+            for c, w in enumerate(est.W):
+                if mode == "MT~" and vs and not vfun(c):
+                    T.append(float("nan")); M.append(float("nan")); continue
+                t, cache = est.category_choice(x, w, params=est.params)
+                mval, _ = est.match_criterion(x, w, params=est.params, cache=cache)
+                T.append(float(t)); M.append(float(mval))
+            rho0 = float(est.params["rho"])
+            if mode == "MT~" and vs:
+                exp_c, lg = expected_scan(T, M, rho0, mode, eps, lambda c: True, inverted)
+                exp_log = [(c, rho0) for c in range(len(Wb))]
+            else:
+                exp_c, lg = expected_scan(T, M, rho0, mode, eps, vfun, inverted)
+                exp_log = lg if vs else []
+        try:
+            est.partial_fit(x.reshape(1, -1), match_reset_func=veto, match_tracking=mode, epsilon=eps)
+        except Exception as e:   # totality is C04's business; stop here
+            return fails
+        c = int(est.labels_[-1])
+        Wa = [np.array(w, dtype=float) for w in est.W]
+        if not has_w:
+            if c != 0 or len(Wa) != 1:
+                fails.append(replay(i, "first sample must create category 0"))
+            continue
+        want = exp_c if exp_c is not None else len(Wb)
+        if c != want:
+            fails.append(replay(i, f"winner {c} but specification scan gives {want}"))
+            continue
+        if exp_c is None and len(Wa) != len(Wb) + 1:
+            fails.append(replay(i, "no category qualifies but not exactly one new category"))
+        if exp_c is not None and len(Wa) != len(Wb):
+            fails.append(replay(i, "resonance but the number of categories changed"))
+        for j in range(min(len(Wb), len(Wa))):
+            if j != c and not np.array_equal(Wb[j], Wa[j]):
+                fails.append(replay(i, f"weight of category {j} changed although {c} won"))
+                break
+        if veto is not None:
+            got = [(cc, float(r[0])) for cc, r in veto.log]
+            okl = len(got) == len(exp_log) and all(a[0] == b[0] and abs(a[1] - b[1]) <= 1e-9 for a, b in zip(got, exp_log))
+            if not okl:
+                fails.append(replay(i, "reset function saw a different (category, vigilance) sequence than the mode prescribes"))
+        if repr(sorted(est.params.items(), key=lambda kv: kv[0])) != repr(sorted(pb.items(), key=lambda kv: kv[0])):
+            fails.append(replay(i, "vigilance adjusted by match tracking leaked beyond the sample's search"))
+    return fails
+
+
+def nontrivial(obs):
+    """>= 2 categories and at least one reset-function call or a new category after the first"""
+    for r in obs:
+        if r.get("snap") and len(r["snap"]["W"]) >= 2:
+            return True
+    return False
+
+
 def main():
     tier = sys.argv[1] if len(sys.argv) > 1 else "quick"
     seed = C.seed_from_env()
     v = C.Verdict("C01", tier, seed)
+    gate_ok, ob = C.proof_gate(v, "C01.v")
     rng = C.make_rng(seed, "C01")
-    n_cases = 600 if tier == "quick" else 6000
+    n_cases = 900 if tier == "quick" else 9000
     cases = gen_cases(rng, n_cases)
-    srcs, shard = [], []
-    all_obs = []
+    strs, summaries, obs_all, hashes = [], [], [], set()
+    nontriv = 0
+    stats = {"modes": {}, "kinds": {}, "with_veto": 0, "undef": 0, "cats": 0}
     for k, ops in cases:
         est, obs = B.run_ops(k, ops)
-        all_obs.append(obs)
-        shard.append(B.case_coq(k, ops, obs))
-        if len(shard) == 200:
-            srcs.append(shard); shard = []
-    if shard:
-        srcs.append(shard)
-    texts = []
-    for sh in srcs:
-        texts.append("From Coq Require Import QArith List.\nFrom ART Require Import Num Kernel.\nFrom ARTcorr Require Import RunBase.\nImport ListNotations.\nOpen Scope Q_scope.\n"
-                     "Definition cases : list case := [\n" + ";\n".join(sh) + "].\n"
-                     "Eval vm_compute in (map check cases).\n")
-    res, logs = C.run_coq_shards("C01", texts)
-    codes = []
-    for r, lg in zip(res, logs):
-        if r is None:
-            print("shard failed:", lg[-800:])
-            codes.append(None)
-        else:
-            codes.extend(r[0])
-    print("codes nonzero:", [(i, c) for i, c in enumerate(codes) if c])
-    print("n", len(codes))
+        obs_all.append(obs)
+        strs.append(B.case_coq(k, ops, obs))
+        summaries.append(B.summary(k, ops))
+        h = C.case_hash(B.summary(k, ops))
+        if nontrivial(obs) and h not in hashes:
+            nontriv += 1
+        hashes.add(h)
+        stats["modes"][ops[0]["mode"]] = stats["modes"].get(ops[0]["mode"], 0) + 1
+        stats["kinds"][k["kind"]] = stats["kinds"].get(k["kind"], 0) + 1
+        stats["with_veto"] += 1 if ops[0].get("veto") else 0
+        stats["undef"] += 0 if obs[-1]["ok"] else 1
+    codes, bad = flow.coq_corr("C01", "RunBase", strs)
+    for b in bad:
+        v.notes.append("coq shard failed: " + b[-600:])
+    # oracle on a subset (all in thorough)
+    n_or = 250 if tier == "quick" else 2500
+    fails = []
+    for k, ops in cases[:n_or]:
+        fails.extend(oracle_case(k, ops))
+
+    def extended():
+        out = []
+        rng2 = C.make_rng(seed, "C01-ext")
+        for k, ops in gen_cases(rng2, 1500):
+            out.extend(oracle_case(k, ops))
+            if len(out) >= 3:
+                break
+        return out
+
+    flow.decide(v, "C01", gate_ok, ob, list(zip(codes, summaries)), fails, extended)
+    v.cov.update({
+        "evaluations": len(cases),
+        "distinct_nontrivial": nontriv,
+        "rule": "random grid data (k/8, small row pools -> duplicates and exact ties), kernels Fuzzy/ART1/ART2A, rho k/8, 5 modes x eps in {0,2^-10,1/16,1/4}, "
+                "70% with a table reset function; fit or 2-3 partial_fit batches; non-trivial = distinct case reaching >= 2 categories",
+        "traces_validated_against_impl": sum(1 for c in codes if c == 0),
+        "oracle_cases": n_or,
+        "distribution": stats,
+        "samples": [summaries[0], summaries[1]],
+    })
+    v.assumptions = ["exact-rational semantics of the kernels; float rounding is outside the theorems (DESIGN 3.1)",
+                     "reset functions do not depend on the params argument (true for every reset function in the library)"]
+    sys.exit(v.finish())
 
 
 if __name__ == "__main__":
